@@ -9,7 +9,7 @@ Only property theorems and examples live here; the proofs' machinery is in
 `Pattern/RoundTripLemmas*.lean` (parser round trip, mutual induction over the nested AST) and
 `Pattern/MeaningLemmas*.lean` (compositionality of the encoder).
 
-Every theorem quantifies over all ASTs — every formatter and alias, arbitrary literal text in both
+Every theorem quantifies over all ASTs — every formatter and alias (`thread_id` too), arbitrary literal text in both
 escape styles, arguments, every nesting depth —, all records, all environments (date texts, thread
 name and ids, MDC content, build profile) and all character classifications that behave as Rust's
 on ASCII (`CCAscii`).
@@ -18,47 +18,54 @@ namespace Log4rs.Pattern.Parse
 
 /-- Parser round trip, exact: parsing the printed AST yields precisely the pieces `piecesOf`
 (ordinary neighbouring characters merged into one `Text` piece), at every nesting depth. -/
-theorem C09_parse_show (cc : CharClass) (hcc : CCAscii cc) (P : Profile) (ps : List Pat) (h : WF P ps) :
+theorem C09_parse_show (cc : CharClass) (hcc : CCAscii cc) (P : Profile) (hus : P.underscoreNames = true)
+    (ps : List Pat) (h : WF P ps) :
     parse cc P (showPats ps) = .ok (piecesOf [] ps) :=
-  parse_show cc hcc P ps h
+  parse_show cc hcc P hus ps h
 
 /-- `PatternEncoder::new(show ps).encode(record)` has the same outcome — operations or panic — as
-encoding the direct translation of the AST. No hypothesis on the date formats. -/
-theorem C09_run_show (cc : CharClass) (hcc : CCAscii cc) (P : Profile) (env : Env) (r : Record)
-    (ps : List Pat) (h : WF P ps) :
-    run cc P env r (showPats ps) = encList env r (chunksOf ps) := by
-  have hm := meaning_piecesOf P.wordBits env r ps false h []
-  simp only [run, newEncoder, C09_parse_show cc hcc P ps h, omap]
+encoding the direct translation of the AST. No hypothesis on the date formats (a format chrono's
+item parser rejects is the `{ERROR: invalid date format …}` chunk on both sides). -/
+theorem C09_run_show (cc : CharClass) (hcc : CCAscii cc) (P : Profile) (hus : P.underscoreNames = true)
+    (B : Build) (hB : B.mdcWhole = true) (env : Env) (r : Record) (ps : List Pat) (h : WF P ps) :
+    run cc P B env r (showPats ps) = encList env r (chunksOf B ps) := by
+  have hm := meaning_piecesOf B hB P.wordBits env r ps false h []
+  simp only [run, newEncoder, C09_parse_show cc hcc P hus ps h, omap]
   rw [hm]
   simp [ofText, seqOut_ok_nil]
 
 /-- The operation stream (characters and style calls, in order) of encoding a printed
-well-formed AST, when chrono accepts the date formats it renders. -/
-theorem C09_ops_parse_show (cc : CharClass) (hcc : CCAscii cc) (P : Profile) (env : Env) (r : Record)
-    (ps : List Pat) (h : WF P ps) (hd : DatesOk env ps) :
-    run cc P env r (showPats ps) = .ok (opsList env r (chunksOf ps)) := by
-  rw [C09_run_show cc hcc P env r ps h]
+well-formed AST, when chrono accepts its date formats. -/
+theorem C09_ops_parse_show (cc : CharClass) (hcc : CCAscii cc) (P : Profile) (hus : P.underscoreNames = true)
+    (B : Build) (hB : B.mdcWhole = true) (env : Env) (r : Record) (ps : List Pat) (h : WF P ps)
+    (hd : DatesOk B env ps) :
+    run cc P B env r (showPats ps) = .ok (opsList env r (chunksOf B ps)) := by
+  rw [C09_run_show cc hcc P hus B hB env r ps h]
   apply encList_eq_ops
-  rw [rendered_chunksOf]
-  exact hd
+  rw [rendered_chunksOf B env ps hd.1]
+  exact hd.2
 
-/-- MAIN THEOREM. For every well-formed pattern (every AST of the documented grammar, every
+/-- MAIN THEOREM. For every well-formed pattern (every AST of the documented grammar — all
+formatters and aliases including `thread_id`, MDC keys and defaults with escaped specials, every
 nesting depth), every record and environment: the text the encoder writes for the printed pattern
 is exactly the pattern's meaning — literal text with escapes reduced, each formatter's value
 (`???` for absent fields, MDC value or default, date in the requested format and zone, nested
 groups, debug/release groups by build profile), each under its format spec — nothing added,
-dropped or reordered. -/
-theorem C09_encode_parse_show (cc : CharClass) (hcc : CCAscii cc) (P : Profile) (env : Env) (r : Record)
-    (ps : List Pat) (h : WF P ps) (hd : DatesOk env ps) :
-    ∃ o, run cc P env r (showPats ps) = .ok o ∧ o.text = denotePats env r ps :=
-  ⟨_, C09_ops_parse_show cc hcc P env r ps h hd, text_chunksOf P.wordBits env r ps false h⟩
+dropped or reordered. (`hus`, `hB`: the current code, i.e. the defaults of `Profile` / `Build`.) -/
+theorem C09_encode_parse_show (cc : CharClass) (hcc : CCAscii cc) (P : Profile)
+    (hus : P.underscoreNames = true) (B : Build) (hB : B.mdcWhole = true) (env : Env) (r : Record)
+    (ps : List Pat) (h : WF P ps) (hd : DatesOk B env ps) :
+    ∃ o, run cc P B env r (showPats ps) = .ok o ∧ o.text = denotePats env r ps :=
+  ⟨_, C09_ops_parse_show cc hcc P hus B hB env r ps h hd,
+    text_chunksOf B P.wordBits env r ps false h hd.1⟩
 
 /-- Style calls are exactly: the level's style before and the plain style after every rendered
 highlight group, in order — a format spec never drops or moves them, nothing else sets a style. -/
-theorem C09_styles_only_around_highlight (cc : CharClass) (hcc : CCAscii cc) (P : Profile) (env : Env)
-    (r : Record) (ps : List Pat) (h : WF P ps) (hd : DatesOk env ps) :
-    ∃ o, run cc P env r (showPats ps) = .ok o ∧ o.styles = stylesPats env r ps :=
-  ⟨_, C09_ops_parse_show cc hcc P env r ps h hd, styles_chunksOf env r ps⟩
+theorem C09_styles_only_around_highlight (cc : CharClass) (hcc : CCAscii cc) (P : Profile)
+    (hus : P.underscoreNames = true) (B : Build) (hB : B.mdcWhole = true) (env : Env)
+    (r : Record) (ps : List Pat) (h : WF P ps) (hd : DatesOk B env ps) :
+    ∃ o, run cc P B env r (showPats ps) = .ok o ∧ o.styles = stylesPats env r ps :=
+  ⟨_, C09_ops_parse_show cc hcc P hus B hB env r ps h hd, styles_chunksOf B env r ps⟩
 
 /-- no highlight group, no style call -/
 theorem C09_no_highlight_no_styles (env : Env) (r : Record) (ps : List Pat)
@@ -70,63 +77,83 @@ theorem C09_debug_level_unstyled (env : Env) (r : Record) (ps : List Pat)
     (h : highlightStyle r.level = none) : stylesPats env r ps = [] :=
   stylesPats_unstyledLevel env r h ps
 
-/-- Aliases are equivalent: writing every formatter in its short form changes nothing — the
-outcome of construct + encode is the same for all records and environments. -/
-theorem C09_alias_equiv (cc : CharClass) (hcc : CCAscii cc) (P : Profile) (env : Env) (r : Record)
-    (ps : List Pat) (h : WF P ps) :
-    run cc P env r (showPats ps) = run cc P env r (showPats (unaliasL ps)) := by
-  rw [C09_run_show cc hcc P env r ps h,
-    C09_run_show cc hcc P env r (unaliasL ps) (wfPats_unalias P.wordBits ps false h), chunksOf_unalias]
+/-- Aliases are equivalent — `thread_id` included: writing every formatter in its short form
+changes nothing; the outcome of construct + encode is the same for all records and environments. -/
+theorem C09_alias_equiv (cc : CharClass) (hcc : CCAscii cc) (P : Profile) (hus : P.underscoreNames = true)
+    (B : Build) (hB : B.mdcWhole = true) (env : Env) (r : Record) (ps : List Pat) (h : WF P ps) :
+    run cc P B env r (showPats ps) = run cc P B env r (showPats (unaliasL ps)) := by
+  rw [C09_run_show cc hcc P hus B hB env r ps h,
+    C09_run_show cc hcc P hus B hB env r (unaliasL ps) (wfPats_unalias P.wordBits ps false h),
+    chunksOf_unalias]
 
-/-! ## the findings that restrict `WF` -/
+/-- in particular `{thread_id}` and `{I}` -/
+theorem C09_thread_id_alias (cc : CharClass) (hcc : CCAscii cc) (P : Profile) (hus : P.underscoreNames = true)
+    (B : Build) (hB : B.mdcWhole = true) (env : Env) (r : Record) :
+    run cc P B env r cs!"{thread_id}" = run cc P B env r cs!"{I}" := by
+  have h : WF P [.leaf .threadId true none] := by unfold WF; rfl
+  have := C09_alias_equiv cc hcc P hus B hB env r [.leaf .threadId true none] h
+  simpa [showPats_cons, showPats_nil, showPat_leaf, unaliasL, unalias, leafName, showSpec] using this
 
-/-- the statement without the restriction on the `thread_id` alias (false: F5) -/
-def C09_full_with_thread_id_alias : Prop :=
-  ∀ (env : Env) (r : Record), ∃ o,
-    run asciiClass Profile.debug64 env r (showPats [.leaf .threadId true none]) = .ok o ∧
-      o.text = denotePats env r [.leaf .threadId true none]
+/-! ## findings -/
 
-/-- F5: the documented alias `{thread_id}` cannot be parsed — `Parser::name` stops at `_`. -/
-theorem C09_F5_thread_id_alias_unparsable :
+/-- F5 (historical, repaired by commit eb8340d): before `_` was accepted in names the documented
+alias `{thread_id}` could not be parsed — `Parser::name` stopped at `_`. -/
+theorem C09_F5_thread_id_alias_unparsable_unfixed :
     showPats [.leaf .threadId true none] = cs!"{thread_id}" ∧
-    parse asciiClass Profile.debug64 cs!"{thread_id}" = .ok [.error cs!"expected '}'"] := by
-  constructor <;> rfl
+    parse asciiClass Profile.unfixed64 cs!"{thread_id}" = .ok [.error cs!"expected '}'"] ∧
+    parse asciiClass Profile.debug64 cs!"{thread_id}" = .ok [.arg cs!"thread_id" [] {}] := by
+  refine ⟨?_, ?_, ?_⟩ <;> rfl
 
-theorem C09_full_with_thread_id_alias_false : ¬ C09_full_with_thread_id_alias := by
-  intro h
-  obtain ⟨o, ho, ht⟩ := h witnessEnv witnessRecord
-  have hrun : run asciiClass Profile.debug64 witnessEnv witnessRecord
-      (showPats [.leaf .threadId true none]) = .ok (ofText (errorMarker cs!"expected '}'")) := by rfl
-  rw [hrun] at ho
-  cases ho
-  rw [ofText_text] at ht
-  have : denotePats witnessEnv witnessRecord [.leaf .threadId true none] = ['7'] := by
-    rw [denotePats_cons, denotePats_nil, denotePat_leaf]
-    decide
-  rw [this] at ht
-  exact absurd ht (by decide)
-
-/-- F6 (a): inside a parenthesised argument the doubled form `))` does not produce `)`: the first
-`)` closes the argument, whatever follows. -/
+/-- F6 (a), STILL A FINDING: inside a parenthesised argument the doubled form `))` does not
+produce `)`: the first `)` closes the argument, whatever follows. `WF` therefore asks for `\)`. -/
 theorem C09_F6_doubled_close_paren_closes_argument (cc : CharClass) (P : Profile) (more : List Char)
     (acc : List Piece) : argB cc P (')' :: ')' :: more) acc = .ok acc (')' :: more) :=
   argB_close cc P _ acc
 
 /-- F6 (a), end to end: `{(a)))}` is an error instead of `a)`. -/
-theorem C09_F6_witness :
+theorem C09_F6_witness (B : Build) :
     showPats [.group .align false [.lit ⟨'a', .plain⟩, .lit ⟨')', .doubled⟩] none] = cs!"{(a)))}" ∧
-    newEncoder asciiClass Profile.debug64 cs!"{(a)))}" = .ok [.error cs!"expected '}'"] := by
+    newEncoder asciiClass Profile.debug64 B cs!"{(a)))}" = .ok [.error cs!"expected '}'"] := by
   constructor <;> rfl
 
-/-- F6 (b): the MDC key (and default) keep only the first text piece of their argument, so an
-escape inside the key cuts it. -/
-theorem C09_F6_mdc_first_piece_only (k : List Char) (more : List Piece) (p : Params) :
-    compile (.arg ['X'] [.text k :: more] p) = .leaf (.mdc k []) p := by
-  rw [compile_arg]
-  simp [groupOfName, leafOfName, mdcChunk, mdcTextOf]
+/-- the statement with `))` allowed inside arguments (false: F6a) -/
+def C09_full_with_doubled_close_paren : Prop :=
+  ∀ (B : Build) (env : Env) (r : Record), ∃ o,
+    run asciiClass Profile.debug64 B env r
+      (showPats [.group .align false [.lit ⟨'a', .plain⟩, .lit ⟨')', .doubled⟩] none]) = .ok o ∧
+    o.text = denotePats env r [.group .align false [.lit ⟨'a', .plain⟩, .lit ⟨')', .doubled⟩] none]
 
-theorem C09_F6_mdc_witness :
-    newEncoder asciiClass Profile.debug64 cs!"{X(a{{b)}" = .ok [.leaf (.mdc ['a'] []) {}] := by rfl
+theorem C09_full_with_doubled_close_paren_false : ¬ C09_full_with_doubled_close_paren := by
+  intro h
+  obtain ⟨o, ho, ht⟩ := h { renderOk := fun _ => true } witnessEnv witnessRecord
+  have hrun : run asciiClass Profile.debug64 { renderOk := fun _ => true } witnessEnv witnessRecord
+      (showPats [.group .align false [.lit ⟨'a', .plain⟩, .lit ⟨')', .doubled⟩] none]) =
+      .ok (ofText (errorMarker cs!"expected '}'")) := by rfl
+  rw [hrun] at ho
+  cases ho
+  rw [ofText_text] at ht
+  have : denotePats witnessEnv witnessRecord
+      [.group .align false [.lit ⟨'a', .plain⟩, .lit ⟨')', .doubled⟩] none] = ['a', ')'] := by
+    simp [denotePats_cons, denotePats_nil, denotePat_group, denotePat_lit, applySpec]
+  rw [this] at ht
+  exact absurd ht (by decide)
+
+/-- F6 (b) (historical, repaired by commit 7be4123): the MDC key (and default) kept only the first
+text piece of their argument, so an escape inside the key cut it … -/
+theorem C09_F6_mdc_first_piece_only_unfixed (B : Build) (hB : B.mdcWhole = false) (k : List Char)
+    (more : List Piece) (p : Params) :
+    compile B (.arg ['X'] [.text k :: more] p) = .leaf (.mdc k []) p := by
+  rw [compile_arg]
+  simp [groupOfName, leafOfName, leafTable, leafLookup, mdcChunk, mdcArgText, hB, mdcTextOf]
+
+/-- … now the whole text is the key -/
+theorem C09_mdc_whole_key_witness (B : Build) (hB : B.mdcWhole = true) :
+    newEncoder asciiClass Profile.debug64 B cs!"{X(a{{b)}" = .ok [.leaf (.mdc cs!"a{b" []) {}] := by
+  have hp : parse asciiClass Profile.debug64 cs!"{X(a{{b)}" =
+      .ok [.arg ['X'] [[.text ['a'], .text ['{'], .text ['b']]] {}] := by rfl
+  simp only [newEncoder, hp, omap, compileL_cons, compileL_nil]
+  rw [compile_arg]
+  simp [groupOfName, leafOfName, leafTable, leafLookup, mdcChunk, mdcArgText, hB, plainTextOf, plainTextLoop]
 
 /-! ## examples: the hypotheses are satisfiable on non-trivial inputs (tests) -/
 
@@ -143,10 +170,14 @@ example : showPats examplePattern = cs!"[{l:>7}] {h({m} \\(x\\))}{D({({t}{{):*<4
 example : WF Profile.debug64 examplePattern := by decide
 example : WF Profile.debug64 [.mdc true [⟨'k', .plain⟩] (some [⟨'d', .plain⟩]) none,
     .date false (some ([⟨'%', .plain⟩, ⟨'Y', .plain⟩, ⟨')', .backslash⟩], some true)) none] := by decide
-/-- outside WF: the alias `thread_id`, `))` inside an argument, an escape in an MDC key, m > M -/
-example : ¬ WF Profile.debug64 [.leaf .threadId true none] := by decide
+/-- inside WF since the repairs: the alias `thread_id`, escapes in an MDC key / default -/
+example : WF Profile.debug64 [.leaf .threadId true none] := by decide
+example : WF Profile.debug64 [.mdc false [⟨'k', .plain⟩, ⟨'{', .doubled⟩, ⟨')', .backslash⟩]
+    (some [⟨'\\', .doubled⟩]) none] := by decide
+/-- outside WF: `))` inside an argument (F6a), also in an MDC key; an empty MDC key; m > M -/
 example : ¬ WF Profile.debug64 [.group .align false [.lit ⟨')', .doubled⟩] none] := by decide
-example : ¬ WF Profile.debug64 [.mdc false [⟨'k', .plain⟩, ⟨'{', .doubled⟩] none none] := by decide
+example : ¬ WF Profile.debug64 [.mdc false [⟨'k', .plain⟩, ⟨')', .doubled⟩] none none] := by decide
+example : ¬ WF Profile.debug64 [.mdc false [] none none] := by decide
 example : ¬ WF Profile.debug64 [.leaf .message false (some { minW := some [9], maxW := some [3] })] := by decide
 
 end Log4rs.Pattern.Parse
